@@ -189,7 +189,7 @@ func run(seed int64, n int, dir string, _ []string) {
 		}
 		plist := strings.Join(pcols, ", ")
 		ca, cb := cols[g.Intn(ncols)], cols[g.Intn(ncols)]
-		shape := []int{0, 0, 1, 2, 2, 2, 2, 3, 3, 4, 5, 6}[g.Intn(12)]
+		shape := []int{0, 0, 1, 2, 2, 2, 2, 3, 3, 4, 5, 6, 7, 7, 8}[g.Intn(15)]
 		if t == 0 {
 			shape = 0
 		}
@@ -209,6 +209,15 @@ func run(seed int64, n int, dir string, _ []string) {
 		case 6:
 			prefix = "SELECT id FROM t WHERE id % 2 = 0"
 			keep = func(id int) bool { return id%2 == 0 }
+		case 7:
+			// the inner query has its own ORDER BY / OFFSET (and LIMIT): none of its sort state may reach the outer one
+			k := g.Intn(nrows/2 + 2)
+			prefix = fmt.Sprintf("SELECT id FROM (SELECT * FROM t ORDER BY id OFFSET %d) AS s", k)
+			keep = func(id int) bool { return id >= k }
+		case 8:
+			k, l := g.Intn(nrows/3+1), 1+g.Intn(nrows+1)
+			prefix = fmt.Sprintf("SELECT id FROM (SELECT * FROM t ORDER BY id DESC LIMIT %d OFFSET %d) AS s", l, k)
+			keep = func(id int) bool { return id <= nrows-1-k && id > nrows-1-k-l }
 		default:
 			prefix = "SELECT id FROM t"
 		}
